@@ -162,6 +162,16 @@ def run(ctx):
         ctx.violation("input", dict(entry=entry, sql=sql, mutation=how, observed="%s raised in %s" % (o[1], o[2]), requires="a tree or ParseException, never another exception type"))
         nbad += 1
 
+    # every parenthesis deletion of every corpus statement (the certainly-ill-formed class that needs no sampling)
+    for entry, sql in corp[ctx.n(60, 500):]:
+        ts = tokens(sql)
+        idx = [i for i, t in enumerate(ts) if t in "()"]
+        if not idx or call(impl.ENTRY[entry], sql)[0] != "ok":
+            continue
+        for i in (idx if ctx.thorough else idx[:6]):
+            judge(entry, "".join(ts[:i] + ts[i + 1:]), True, "delete parenthesis")
+        if nbad > 15:
+            break
     for entry, sql in base:
         st = call(impl.ENTRY[entry], sql)
         if st[0] != "ok" or st[1] is None:
